@@ -85,6 +85,16 @@ CHECKS = {
    note="Partial: success of the chain for every assignment satisfying the arrays is exercised, not proved (it would compose the designer and finish models). Unused sequences are undesigned by design of the tool (they keep their template codes); the oracle accepts a degenerate code that denotes a subset of the constraint. Trusted: as C17 plus the NUPACK stub and gcc build. Axioms: none.",
    technique="Coq proofs on the finish model + end-to-end differential pipeline against the source denotation",
    design="5 C06"),
+ "C16": dict(
+   text="Proof (partial): every line of the emitted .pil carries exactly the name, length, constraint string, dummy flag, item list, strand list and target of a compiled object of the model (the graph that is pickled), and by C01 every non-empty object has its line (1 theorem here, closed). Correspondence on histories: compile after 0-5 earlier compiles in one interpreter, capture the in-memory system at compiler.save, load the .save in a second fresh interpreter with another hash seed; canonical object-graph dumps (tables, attributes, item lists by identity class, complement links, sharing with component tables, signal tables) compared, cross-checked against the .pil of the same compile, and apply_design run on both sides.",
+   note="Partial by nature: that pickle with default_ordered_dict / ordered_set reproduces an isomorphic graph in a fresh process is runtime behaviour no Gallina model can express; it is exhibited, not proved. Trusted: Coq kernel; hist_worker.py (wraps compiler.save, no source hook). Axioms: none.",
+   technique="Coq lemma on emitted lines + save/reload round trips in fresh processes with canonical graph dumps",
+   design="5 C16"),
+ "C18": dict(
+   text="Proof (partial): the compile model is a function of (file table, arguments, include list, starting counter); anonymous names are an injective function of the counter, so two compilations differ only by a renumbering fixed by the starting counter; every name defined in one emitted component document is fresh (wf_pil) (2 theorems, closed). Correspondence over histories in fresh interpreters: 0-3 earlier compilations of other projects using the same relative file names, invocation from the project root or its parent, several PYTHONHASHSEED values, both back-ends, with and without a fixed-sequence file using S/N over degenerate constraints; outputs must be identical modulo the timestamp line and a consistent renumbering, names unique; one run per target compared with the model.",
+   note="Partial by nature: absence of any other hidden interpreter state is what a model assumes; the histories decide it per case. Trusted: Coq kernel; extraction/driver; hist_worker.py. Axioms: none.",
+   technique="Coq lemmas (injective numbering, fresh names) + history / hash-seed / directory correspondence",
+   design="5 C18"),
 }
 
 checks = []
